@@ -10,6 +10,22 @@
  * bytes coded with that many bits (measured on the replica).
  * Oracles (implementation only): every read, under random partitions and forward/backward seeks, in the
  * writing session, and after close/reopen, equals the shadow copy; HCPgetdatasize sizes equal what is stored.
+ *
+ * MIXED SESSIONS (session_case, about a third of the cases, every coder - RLE, none, skipping Huffman, deflate, and the n-bit coder with
+ *   the whole value selected, i.e. the identity projection, in whole-value transfers): ONE access id with write access carries a whole history of
+ *   sequential writes (appends), backward / forward seeks, partial reads and finally Hendaccess, in any order.  The data is built from
+ *   segments (runs, non-repeating stretches, noise) whose lengths sit on the coders' limits (run-length packets of 127..131 / 259..261 /
+ *   390 bytes, literal packets of 126..130 / 255..258, skip-size multiples, the 4096-byte buffers of the deflate coder and of bit I/O);
+ *   writes END on segment boundaries (or one byte off) most of the time, so the coder is left exactly at / just before / just after a
+ *   forced flush when the access id turns to reading; reads stop inside a segment, on its boundary, or at the end.  A second session
+ *   (Hstartwrite on the existing element, in the same Hopen or after reopening read/write) seeks to the end and appends, again mixed
+ *   with seeks and reads.  Oracles: every read inside a session returns the bytes written so far (comp-session-read), no in-scope
+ *   operation fails (comp-session-op), the length reported is the number of bytes written (comp-length), and after Hendaccess the
+ *   element is exactly the byte stream written (comp-session-stored; then read_check in the same Hopen and after reopening).
+ *   RLE: the history and the resulting DFTAG_COMPRESSED bytes go to the Lean session model:
+ *        T rle sess <raw before|-> <op,op,...> => <raw after> <bytes delivered by the reads>      op = w<hex> | s<offset> | r<count>
+ *   (`e` = Hendaccess is implied at the end), which replays it on the functions TRANSLATED from crle.c (H4.Gen.Fn.Crle) - see
+ *   lean/H4/Driver/Rle.lean, theorem H4.Props.C05RleSess.session_roundtrip.
  */
 #include "hdf.h"
 #include "hfile_priv.h"
@@ -96,6 +112,10 @@ static int write_partition(int32 aid, const uint8_t *d, int n)
     return 0;
 }
 
+static int sess_gran = 1; /* every transfer and seek of a session is a multiple of this many bytes (n-bit coder: whole values) */
+static int gr_up(int x) { return (x + sess_gran - 1) / sess_gran * sess_gran; }
+static int gr_down(int x) { return x / sess_gran * sess_gran; }
+
 /* read the whole element back through a random partition with seeks; compare with shadow */
 static void read_check(int32 fid, uint16 tag, uint16 ref, const uint8_t *d, int n, const char *when, const char *coder)
 {
@@ -111,10 +131,12 @@ static void read_check(int32 fid, uint16 tag, uint16 ref, const uint8_t *d, int 
         if (act < 3 && n > 0) { /* seek anywhere (forward or backward) */
             int to = (int)hk_range(0, n - 1);
             if (hk_chance(30)) to = (int)hk_range(0, pos > 0 ? pos : 0);
+            to = gr_down(to);
             if (Hseek(aid, to, DF_START) == FAIL) { hk_fail("comp-seek", "%s %s seek to %d of %d", coder, when, to, n); break; }
             pos = to;
         }
         int want = (int)hk_range(0, hk_chance(30) ? n : 40);
+        want = gr_down(want);
         if (want > n - pos) want = n - pos;
         if (want == 0) continue;
         memset(rbuf, 0xA5, (size_t)want + 8);
@@ -139,6 +161,290 @@ static void read_check(int32 fid, uint16 tag, uint16 ref, const uint8_t *d, int 
     Hendaccess(aid);
 }
 
+/* ------------------------------------------------------------------------------------------------------------------------------
+ * mixed sessions on ONE access id (see the header comment)
+ * ------------------------------------------------------------------------------------------------------------------------------ */
+#define MAXSEG 8192
+static int seg_end[MAXSEG]; /* seg_end[i] = offset just behind segment i */
+static int nseg;
+
+/* append segments to d[from..) until `target` bytes; lengths sit on the coders' limits */
+static int gen_segments(uint8_t *d, int from, int target, int lanes)
+{
+    static const int RL[] = {1, 2, 3, 4, 5, 126, 127, 128, 129, 131, 132, 259, 261, 391};
+    static const int RX[] = {130, 130, 130, 260, 390}; /* the run-length coder is forced to flush exactly at the end of such a run */
+    static const int ML[] = {1, 2, 3, 4, 125, 126, 127, 129, 130, 131, 255, 257, 258};
+    static const int MX[] = {128, 128, 128, 256, 384}; /* ... and of such a literal stretch */
+    int n = from, lastkind = -1;
+    while (n < target && nseg < MAXSEG) {
+        int len, i, kind = (int)hk_range(0, 9), lim = (int)hk_range(0, 99);
+        uint8_t prev = n > 0 ? d[n - 1] : 0, v = hk_byte();
+        if (v == prev && !hk_chance(10)) v = (uint8_t)(v + 1 + hk_range(0, 200)); /* a run usually starts with a new value */
+        if (lastkind >= 4 && lastkind < 8 && kind >= 4 && kind < 8 && hk_chance(80)) kind = 0; /* two literal stretches in a row merge: mostly alternate */
+        lastkind = kind;
+        if (kind < 4) { /* run */
+            len = lim < 45 ? HK_PICK(RX) : lim < 75 ? HK_PICK(RL) : (int)hk_range(1, 300);
+            for (i = 0; i < len; i++) d[n + i] = v;
+        }
+        else if (kind < 8) { /* non-repeating stretch: neighbours always differ */
+            int step = 1 + 2 * (int)hk_range(0, 40);
+            len = lim < 45 ? HK_PICK(MX) : lim < 75 ? HK_PICK(ML) : (int)hk_range(1, 300);
+            for (i = 0; i < len; i++) d[n + i] = (uint8_t)(v + i * step);
+        }
+        else if (kind == 8) { /* noise over a tiny alphabet: pseudo-runs of two, short runs */
+            len = (int)hk_range(1, 40);
+            for (i = 0; i < len; i++) d[n + i] = (uint8_t)(v + (hk_next() % 3));
+        }
+        else { /* whole values of `lanes` bytes, or up to just below / on / above the next multiple of 4096 (buffers of deflate and of bit I/O) */
+            if (hk_chance(50)) {
+                len = lanes * (int)hk_range(1, 6);
+                for (i = 0; i < len; i++) d[n + i] = (uint8_t)((i % lanes) ? v : i / lanes);
+            }
+            else {
+                len = (n / 4096 + 1) * 4096 + (int)hk_range(-1, 1) - n;
+                if (len <= 0) len = 1;
+                for (i = 0; i < len && n + i < target; i++) d[n + i] = (uint8_t)((i & 7) ? (i >> 5) : v);
+            }
+        }
+        if (len > target - n) len = target - n;
+        n += len;
+        seg_end[nseg++] = n;
+    }
+    return n;
+}
+
+/* offset of a segment boundary near `pos` (at or behind it), `skip` boundaries further */
+static int boundary_after(int pos, int skip)
+{
+    int i;
+    for (i = 0; i < nseg; i++)
+        if (seg_end[i] > pos) { i += skip; if (i >= nseg) i = nseg - 1; return seg_end[i]; }
+    return nseg ? seg_end[nseg - 1] : 0;
+}
+
+typedef struct { char *s; size_t n, cap; } sbuf;
+static void sb_need(sbuf *b, size_t more) { if (b->n + more + 1 > b->cap) { b->cap = (b->n + more + 1) * 2; b->s = realloc(b->s, b->cap); if (!b->s) abort(); } }
+static void sb_str(sbuf *b, const char *t) { size_t l = strlen(t); sb_need(b, l); memcpy(b->s + b->n, t, l + 1); b->n += l; }
+static void sb_hex(sbuf *b, const uint8_t *p, size_t n) { static const char H[] = "0123456789abcdef"; size_t i; sb_need(b, 2 * n); for (i = 0; i < n; i++) { b->s[b->n++] = H[p[i] >> 4]; b->s[b->n++] = H[p[i] & 15]; } b->s[b->n] = 0; }
+static void sb_op(sbuf *b, char c, long v) { char t[32]; sprintf(t, "%s%c%ld", b->n ? "," : "", c, v); sb_str(b, t); }
+
+/* One session through `aid` (write access).  *written = bytes the element holds (all of them equal d[0..*written)), *posn = position of
+   the access id.  Appends up to d[0..goal), mixed with seeks and reads.  Returns -1 when an operation failed (already reported). */
+static int session_ops(int32 aid, const uint8_t *d, int goal, int *written, int *posn, sbuf *script, sbuf *reads, const char *cname, const char *when)
+{
+    int steps = (int)hk_range(2, 14), s, w = *written, p = *posn;
+    int deflate = cname[0] == 'd';
+    int after_write = 0; /* the previous operation was a write: the coder is in whatever state the end of that write left it in */
+    int reading = w > 0; /* the access id has been used for reading / seeking backward since the last write (or was opened on existing data) */
+    int must_write = (w == 0 && goal > 0); /* the first operation on a new element is a write */
+    for (s = 0; s < steps; s++) {
+        int act = (int)hk_range(0, 99);
+        if ((must_write || act < 45) && w < goal) { /* ---- append: the position has to be the end of the data (sequential writing) */
+            if (p != w) {
+                if (hk_chance(70)) { /* forward seek to the end */
+                    if (Hseek(aid, w, DF_START) == FAIL) { hk_fail("comp-session-op", "%s %s Hseek to the end %d (from %d) failed", cname, when, w, p); goto bad; }
+                    sb_op(script, 's', w);
+                }
+                else { /* read up to the end */
+                    int32 r = Hread(aid, w - p, rbuf);
+                    sb_op(script, 'r', w - p);
+                    reading = 1;
+                    if (r != w - p) { hk_fail("comp-session-op", "%s %s Hread(%d)@%d=%d of %d", cname, when, w - p, p, (int)r, w); goto bad; }
+                    sb_hex(reads, rbuf, (size_t)r);
+                    if (memcmp(rbuf, d + p, (size_t)(w - p)) != 0) { hk_fail("comp-session-read", "%s %s read up to the end @%d len %d differs from the bytes written", cname, when, p, w - p); goto bad; }
+                }
+                p = w;
+            }
+            int end, sel = (int)hk_range(0, 9);
+            if (sel < 6) end = boundary_after(w, (int)hk_range(0, 3));          /* exactly on a segment boundary */
+            else if (sel < 8) end = boundary_after(w, (int)hk_range(0, 2)) + (hk_chance(50) ? 1 : -1); /* one byte off */
+            else end = w + (int)hk_range(1, 300);
+            if (s == steps - 1 && hk_chance(50)) end = goal;
+            end = hk_chance(50) ? gr_up(end) : gr_down(end);
+            if (end > goal) end = goal;
+            if (end <= w) end = w + sess_gran;
+            int32 r = Hwrite(aid, end - w, d + w);
+            if (deflate && reading && w > 0) {
+                /* deflate, append after the coder left write mode (known finding comp-deflate-append-after-read: HCPcdeflate_write restarts the
+                   deflater and rewinds the stream, the appended bytes replace the element; a later seek then inflates on the deflate context).
+                   A refusal is acceptable (nothing written); an accepted append is read back at once, through a BACKWARD seek, which is safe */
+                hk_stat("deflate_appends_after_read", 1);
+                if (r == FAIL) { hk_stat("deflate_appends_after_read_refused", 1); reading = 1; goal = w; continue; }
+                if (r == end - w) {
+                    int32 g = Hseek(aid, 0, DF_START) == FAIL ? FAIL : Hread(aid, end, rbuf);
+                    if (g != end || memcmp(rbuf, d, (size_t)end) != 0) {
+                        int i; for (i = 0; i < end && g == end && rbuf[i] == d[i]; i++) {}
+                        hk_fail("comp-deflate-append-after-read", "%s %s: %d bytes appended at %d after the access id had been used for reading: reading back %d bytes gives %d, first difference at %d", cname, when, end - w, w, end, (int)g, i);
+                        w = end; goto bad;
+                    }
+                    w = p = end; must_write = 0; reading = 1;
+                    hk_stat("session_writes", 1);
+                    continue;
+                }
+            }
+            if (r != end - w) { hk_fail("comp-session-op", "%s %s Hwrite(%d)@%d=%d", cname, when, end - w, w, (int)r); goto bad; }
+            sb_str(script, script->n ? ",w" : "w"); sb_hex(script, d + w, (size_t)(end - w));
+            w = p = end; must_write = 0; reading = 0; after_write = 1;
+            hk_stat("session_writes", 1);
+            continue;
+        }
+        if (w == 0) continue;
+        /* ---- seek and / or read */
+        int kind = (int)hk_range(0, 9), to = -1;
+        if (after_write && hk_chance(60)) kind = (int)hk_range(0, 3); /* the writer turns round: seek back and read */
+        after_write = 0;
+        if (kind < 5) { /* backward (or to the same place) */
+            int t = (int)hk_range(0, 9);
+            to = t < 4 ? 0 : t < 7 ? boundary_after((int)hk_range(0, p > 0 ? p - 1 : 0), 0) + (int)hk_range(-1, 1) : (int)hk_range(0, p);
+            if (to > p) to = p;
+            if (to < 0) to = 0;
+        }
+        else if (kind < 7) to = (int)hk_range(p, w); /* forward */
+        if (to >= 0) {
+            to = gr_down(to);
+            if (Hseek(aid, to, DF_START) == FAIL) { hk_fail("comp-session-op", "%s %s Hseek to %d (from %d, %d written) failed", cname, when, to, p, w); goto bad; }
+            sb_op(script, 's', to);
+            if (to < p) { hk_stat("session_backward_seeks", 1); reading = 1; }
+            p = to;
+        }
+        if (kind == 4 || kind == 6 || p >= w) continue; /* seek only */
+        int want, t = (int)hk_range(0, 9);
+        if (t < 4) want = (int)hk_range(1, 60);                                     /* stops somewhere, often inside a segment */
+        else if (t < 6) want = boundary_after(p, (int)hk_range(0, 2)) - p + (int)hk_range(-1, 1); /* on / next to a boundary */
+        else if (t < 8) want = (int)hk_range(1, w - p);
+        else want = w - p;                                                          /* up to the end */
+        want = hk_chance(50) ? gr_up(want) : gr_down(want);
+        if (want > w - p) want = w - p;
+        if (want < sess_gran) want = sess_gran;
+        memset(rbuf, 0xA5, (size_t)want + 8);
+        int32 r = Hread(aid, want, rbuf);
+        sb_op(script, 'r', want);
+        reading = 1;
+        if (r != want) { hk_fail("comp-session-op", "%s %s Hread(%d)@%d=%d (%d written)", cname, when, want, p, (int)r, w); goto bad; }
+        sb_hex(reads, rbuf, (size_t)want);
+        if (memcmp(rbuf, d + p, (size_t)want) != 0) {
+            int i; for (i = 0; i < want && rbuf[i] == d[p + i]; i++) {}
+            hk_fail("comp-session-read", "%s %s read@%d len %d through the writing access id differs at +%d (got %02x want %02x), %d written", cname, when, p, want, i, rbuf[i], d[p + i], w);
+            goto bad;
+        }
+        if (rbuf[want] != 0xA5) { hk_fail("comp-read-overrun", "%s %s session", cname, when); goto bad; }
+        p += want;
+        hk_stat(p < w ? "session_partial_reads" : "session_reads_to_end", 1);
+        if (p < w && hk_chance(25)) break; /* Hendaccess with the reader stopped inside the data */
+    }
+    *written = w; *posn = p;
+    return 0;
+bad:
+    *written = w; *posn = p;
+    return -1;
+}
+
+/* after Hendaccess of a session: the element is exactly d[0..n); RLE: hand history and stored bytes to the model */
+static void session_after(int32 fid, uint16 tag, uint16 ref, comp_coder_t coder, const uint8_t *d, int n, const uint8_t *raw0, int32 raw0len,
+                          sbuf *script, sbuf *reads, const char *cname, const char *when, int32 *rawlen)
+{
+    int32 g; /* (the length reported is checked by read_check: comp-length) */
+    memset(rbuf, 0x5A, (size_t)n + 8);
+    g = n > 0 ? Hgetelement(fid, tag, ref, rbuf) : 0;
+    if (g != n || memcmp(rbuf, d, (size_t)n) != 0) {
+        int i; for (i = 0; i < n && rbuf[i] == d[i]; i++) {}
+        hk_fail("comp-session-stored", "%s %s: after Hendaccess the element is not the byte stream written (Hgetelement=%d, %d written, first difference at %d)", cname, when, (int)g, n, i);
+    }
+    int32 csz = -1, osz = -1;
+    if (HCPgetdatasize(fid, tag, ref, &csz, &osz) == FAIL) hk_fail("comp-getdatasize", "%s %s", cname, when);
+    else if (osz != n) hk_fail("comp-origsize", "%s %s HCPgetdatasize orig=%d expected %d", cname, when, (int)osz, n);
+    uint16 ft = 0, fr = 0; int32 foff = 0, flen = 0;
+    *rawlen = 0;
+    if (Hfind(fid, DFTAG_COMPRESSED, DFREF_WILDCARD, &ft, &fr, &foff, &flen, DF_FORWARD) == FAIL) { hk_fail("comp-noraw", "%s %s no DFTAG_COMPRESSED element n=%d", cname, when, n); return; }
+    if (flen < 0) flen = 0;
+    if (csz != -1 && csz != flen) hk_fail("comp-compsize", "%s %s HCPgetdatasize comp=%d stored=%d", cname, when, (int)csz, (int)flen);
+    if (coder == COMP_CODE_RLE && flen <= (int32)sizeof raw) {
+        g = flen > 0 ? Hgetelement(fid, DFTAG_COMPRESSED, fr, raw) : 0;
+        if (g != flen) { hk_fail("comp-getraw", "Hgetelement=%d len=%d", (int)g, (int)flen); return; }
+        *rawlen = flen;
+        if (n <= 3000 && reads->n <= 16000) { /* the translated functions work on linked lists: a call costs O(n^2) in the model */
+            printf("T rle sess "); hk_hex(raw0, (size_t)raw0len); printf(" %s => ", script->n ? script->s : "-"); hk_hex(raw, (size_t)flen);
+            printf(" %s\n", reads->n ? reads->s : "-");
+        }
+        printf("T rle dec "); hk_hex(raw, (size_t)flen); printf(" => "); hk_hex(d, (size_t)n); printf("\n");
+    }
+}
+
+static void session_case(int k, comp_coder_t coder, comp_info *cinfo, const char *cname)
+{
+    const char *path = hk_tmp("c.hdf");
+    model_info minfo;
+    static uint8_t raw0[sizeof raw];
+    sbuf script = {0, 0, 0}, reads = {0, 0, 0};
+    int lanes = coder == COMP_CODE_SKPHUFF ? cinfo->skphuff.skp_size : (int)hk_range(1, 4);
+    int cap = (int)maxlen, goal, t = (int)hk_range(0, 9);
+    memset(&minfo, 0, sizeof minfo);
+    if (hk_chance(8) && cap < 9000) cap = 9000; /* now and then across the 4096-byte buffers whatever the tier */
+    goal = t < 2 ? (int)hk_range(1, 40) : t < 7 ? (int)hk_range(100, cap < 1500 ? cap : 1500) : (int)hk_range(1, cap);
+    nseg = 0;
+    goal = gr_up(goal);
+    goal = gen_segments(data, 0, goal, lanes);
+    uint16 tag = (uint16)hk_range(1000, 1010), ref = (uint16)hk_range(1, 5);
+    printf("INFO session coder=%s goal=%d segments=%d\n", cname, goal, nseg);
+    hk_stat("session_cases", 1);
+    int32 fid = Hopen(path, DFACC_CREATE, (int16)(hk_chance(50) ? 0 : hk_range(4, 20)));
+    if (fid == FAIL) { hk_fail("comp-open", "Hopen create"); return; }
+    int32 aid = HCcreate(fid, tag, ref, COMP_MODEL_STDIO, &minfo, coder, cinfo);
+    if (aid == FAIL) { hk_fail("comp-create", "HCcreate %s", cname); Hclose(fid); return; }
+    int n = 0, posn = 0;
+    int32 rawlen = 0;
+    int ok = session_ops(aid, data, goal, &n, &posn, &script, &reads, cname, "session-1") == 0;
+    if (Hendaccess(aid) == FAIL) hk_fail("comp-endaccess", "%s session-1 n=%d", cname, n);
+    hk_stat("bytes", n);
+    if (ok) {
+        session_after(fid, tag, ref, coder, data, n, raw0, 0, &script, &reads, cname, "session-1", &rawlen);
+        read_check(fid, tag, ref, data, n, "after-session-1", cname);
+    }
+    /* a second session on the existing element: Hstartwrite, seek to the end, append - in the same Hopen or after reopening read/write */
+    if (ok && hk_chance(55)) {
+        if (hk_chance(50)) {
+            if (Hclose(fid) == FAIL) hk_fail("comp-close", "%s session-1", cname);
+            fid = Hopen(path, DFACC_RDWR, 0);
+            if (fid == FAIL) { hk_fail("comp-reopen", "%s rdwr", cname); goto out; }
+        }
+        int goal2 = gr_up(n + (int)hk_range(0, hk_chance(70) ? 300 : (cap < 2000 ? cap : 2000)));
+        if (goal2 > MAXLEN) goal2 = gr_down(MAXLEN);
+        if (goal2 < goal) goal2 = goal;
+        goal2 = gen_segments(data, goal, goal2, lanes);
+        memcpy(raw0, raw, (size_t)rawlen);
+        script.n = reads.n = 0;
+        aid = hk_chance(50) ? Hstartwrite(fid, tag, ref, n) : Hstartaccess(fid, tag, ref, DFACC_RDWR);
+        if (aid == FAIL) hk_fail("comp-startwrite", "%s session-2 n=%d", cname, n);
+        else {
+            posn = 0;
+            int n1 = n;
+            ok = session_ops(aid, data, goal2, &n, &posn, &script, &reads, cname, "session-2") == 0;
+            if (Hendaccess(aid) == FAIL) hk_fail("comp-endaccess", "%s session-2 n=%d", cname, n);
+            hk_stat("session_second", 1);
+            if (n > n1) hk_stat("session_second_appends", 1);
+            if (ok) {
+                int32 rl2 = 0;
+                session_after(fid, tag, ref, coder, data, n, raw0, coder == COMP_CODE_RLE ? rawlen : 0, &script, &reads, cname, "session-2", &rl2);
+                read_check(fid, tag, ref, data, n, "after-session-2", cname);
+            }
+        }
+    }
+    if (Hclose(fid) == FAIL) hk_fail("comp-close", "%s", cname);
+    if (ok) {
+        fid = Hopen(path, DFACC_READ, 0);
+        if (fid == FAIL) { hk_fail("comp-reopen", "%s", cname); goto out; }
+        read_check(fid, tag, ref, data, n, "after-reopen", cname);
+        if (n > 0) {
+            int32 g = Hgetelement(fid, tag, ref, rbuf);
+            if (g != n || memcmp(rbuf, data, (size_t)n) != 0) hk_fail("comp-getelement", "%s session after reopen g=%d n=%d", cname, (int)g, n);
+        }
+        Hclose(fid);
+    }
+    if (k < 3) printf("SAMPLE session coder=%s n=%d script=%.60s\n", cname, n, script.s ? script.s : "-");
+out:
+    free(script.s); free(reads.s);
+}
+
 static void run_case(int k)
 {
     const char *path = hk_tmp("c.hdf");
@@ -147,11 +453,28 @@ static void run_case(int k)
     char cname[32];
     int pick = (int)hk_range(0, 9);
     long fails0 = hk_nfail; /* oracle failures before this case */
+    sess_gran = 1;
     memset(&cinfo, 0, sizeof cinfo); memset(&minfo, 0, sizeof minfo);
     if (pick < 5) { coder = COMP_CODE_RLE; strcpy(cname, "rle"); }
     else if (pick < 6) { coder = COMP_CODE_NONE; strcpy(cname, "none"); }
     else if (pick < 8) { coder = COMP_CODE_SKPHUFF; cinfo.skphuff.skp_size = hk_chance(85) ? (int)hk_range(1, 9) : (int)hk_range(10, 40); sprintf(cname, "skphuff%d", cinfo.skphuff.skp_size); }
     else { coder = COMP_CODE_DEFLATE; cinfo.deflate.level = (int)hk_range(0, 9); sprintf(cname, "deflate%d", cinfo.deflate.level); }
+
+    if (hk_chance(35)) { /* mixed session on one access id */
+        sess_gran = 1;
+        if (hk_chance(10)) { /* the n-bit coder with the whole value selected (the projection is the identity): whole-value transfers */
+            static const int32 NT[] = {DFNT_UINT8, DFNT_INT8, DFNT_UINT16, DFNT_INT16, DFNT_UINT32, DFNT_INT32};
+            int32 nt = HK_PICK(NT);
+            sess_gran = DFKNTsize(nt);
+            coder = COMP_CODE_NBIT;
+            memset(&cinfo, 0, sizeof cinfo);
+            cinfo.nbit.nt = nt; cinfo.nbit.sign_ext = (int)hk_range(0, 1); cinfo.nbit.fill_one = (int)hk_range(0, 1);
+            cinfo.nbit.start_bit = 8 * sess_gran - 1; cinfo.nbit.bit_len = 8 * sess_gran;
+            sprintf(cname, "nbit%d", sess_gran);
+        }
+        session_case(k, coder, &cinfo, cname);
+        return;
+    }
 
     /* structured families: for skipping Huffman on its own lanes (long enough for the trees to get deep, whatever maxlen is),
        for the other coders as 1..4-byte-wide values */
